@@ -68,7 +68,7 @@ func genNotifier(g *gen) {
 			if s > 2 && g.chance(1, 14) {
 				// the periodic refresh of the group records, in the middle of whatever incidents are open
 				g.emit("N refresh %s 0", listing(g.chance(1, 3)))
-			} else if i%200 == 17 && s == steps/2 {
+			} else if i%200 == 17 && i < 1000 && s == steps/2 {
 				// … and one that meets a storage subsystem too busy to take the consumer-list requests
 				g.emit("N refresh %s 1", listing(false))
 			}
